@@ -267,3 +267,37 @@ func TestGovcReplayStr(t *testing.T) {
 	}
 	fmt.Println("no failing input found")
 }
+
+// TestGovcReplaySetOps searches sets of every element type (the quantifier of
+// C06/C10) for a panic in Set.Equal / Intersect / Union.
+func TestGovcReplaySetOps(t *testing.T) {
+	elems := [][]Term{
+		{Integer(1), Integer(2)}, {String(1)}, {Date(3)}, {Bool(true)},
+		{Bytes{1}}, {Bytes{1}, Bytes{2}}, {Bytes{}},
+	}
+	for _, a := range elems {
+		for _, b := range elems {
+			sa, sb := Set(a), Set(b)
+			for _, op := range []struct {
+				name string
+				f    func()
+			}{
+				{"Equal", func() { sa.Equal(sb) }},
+				{"Intersect", func() { sa.Intersect(sb) }},
+				{"Union", func() { sa.Union(sb) }},
+			} {
+				p := func() (p interface{}) {
+					defer func() { p = recover() }()
+					op.f()
+					return nil
+				}()
+				if p != nil && strings.Contains(os.Getenv("GOVC_OBLIGATION"), "."+op.name+"/") {
+					fmt.Printf("REPRODUCED: Set%v.%s(Set%v) panics: %v\n", a, op.name, b, p)
+					t.Fail()
+					return
+				}
+			}
+		}
+	}
+	fmt.Println("no failing input found")
+}
